@@ -69,6 +69,8 @@ type inst struct {
 	g    *gate
 	dir  string
 	sock string
+	// a rewrite-ended event arrived while the -shrink file still existed
+	endedEarly bool
 }
 
 var instCounter int
@@ -150,6 +152,13 @@ func (in *inst) shrinkWith(kinds string, at func(ev event) bool) ([]event, strin
 		evs = append(evs, ev)
 		if ev.kind == "done" {
 			in.g.ask("disarm")
+			// the end of a rewrite: the new file has been swapped in. If the -shrink file is still
+			// there the event came from somewhere else (e.g. a second request that returned early);
+			// give the real rewrite, now released, the time to finish before the state is compared.
+			for i := 0; i < 300 && fileSize(filepath.Join(in.dir, "appendonly.aof-shrink")) >= 0; i++ {
+				in.endedEarly = true
+				time.Sleep(10 * time.Millisecond)
+			}
 			return evs, ""
 		}
 		if at != nil && !at(ev) {
@@ -527,6 +536,40 @@ func quiescent(r *hx.Result, cfg hx.Config, rng *rand.Rand, idx int, nonUTF8 boo
 	}
 }
 
+// checkShrunkFile: the file a quiescent AOFSHRINK produced holds exactly one SET per object of the
+// dump, one SETHOOK/SETCHAN per hook or channel, and nothing else. Returns "" or what is wrong.
+func checkShrunkFile(path, dump string) string {
+	recs, err := readAOF(path)
+	if err != nil {
+		return "the shrunk file does not parse: " + err.Error()
+	}
+	seen := map[string]int{}
+	nset, nhook, other := 0, 0, 0
+	for _, rec := range recs {
+		switch {
+		case len(rec) >= 3 && rec[0] == "set":
+			nset++
+			seen[rec[1]+"\x00/\x00"+rec[2]]++
+		case len(rec) >= 2 && (rec[0] == "sethook" || rec[0] == "setchan"):
+			nhook++
+		default:
+			other++
+		}
+	}
+	dup := 0
+	for _, n := range seen {
+		if n > 1 {
+			dup++
+		}
+	}
+	nobj := strings.Count(dump, "\n  ")
+	nhooksLive := strings.Count(dump, "\nHOOKS [") + strings.Count(dump, "\nCHANS [")
+	if nset != nobj || dup != 0 || other != 0 || nhook != nhooksLive {
+		return fmt.Sprintf("shrunk file: %d set records (%d duplicated pairs), %d hook records, %d other records; dataset has %d objects and %d hooks/channels", nset, dup, nhook, other, nobj, nhooksLive)
+	}
+	return ""
+}
+
 func fileSize(p string) int64 {
 	fi, err := os.Stat(p)
 	if err != nil {
@@ -670,10 +713,14 @@ func concurrent(r *hx.Result, cfg hx.Config, rng *rand.Rand, idx int) {
 	var log []sent
 	nwrites, neff := 0, 0
 	density := 1 + rng.Intn(3)
+	gateNo, reqGate := 0, 2+rng.Intn(10)
 	evs, e := in.shrinkWith("*", func(ev event) bool {
 		n := 0
 		if rng.Intn(3) < density {
 			n = 1 + rng.Intn(3)
+		}
+		if gateNo+1 == reqGate && n < 2 {
+			n = 3
 		}
 		if ev.kind == "start" || ev.kind == "final" || ev.kind == "hooknames" {
 			n = 1 + rng.Intn(3)
@@ -683,8 +730,14 @@ func concurrent(r *hx.Result, cfg hx.Config, rng *rand.Rand, idx int) {
 		if ev.kind != "keys" && ev.kind != "ids" {
 			cur.key, cur.id = "", ""
 		}
+		gateNo++
 		for i := 0; i < n; i++ {
 			w := genWrite(rng, cur, known, nil)
+			// another AOFSHRINK request while this one is parked (must be a no-op), in the middle
+			// of the writes: at a fixed gate of every scenario and now and then elsewhere
+			if (gateNo == reqGate && i == n/2) || rng.Intn(25) == 0 || (ev.kind == "final" && i == 0 && rng.Intn(2) == 0) {
+				w = []string{"AOFSHRINK"}
+			}
 			v := in.c.MustDo(w...)
 			nwrites++
 			if !v.IsErr() && !(v.Kind == ':' && v.Int == 0) && v.Kind != 'n' {
@@ -769,6 +822,8 @@ func (m mcmd) real() []string {
 		return []string{"DROP", m.a}
 	case "rename":
 		return []string{"RENAME", m.a, m.b}
+	case "aofshrink":
+		return []string{"AOFSHRINK"}
 	}
 	return []string{"FLUSHDB"}
 }
@@ -783,6 +838,8 @@ func (m mcmd) model() []string {
 		return []string{"w", "drop", model.H(m.a)}
 	case "rename":
 		return []string{"w", "rename", model.H(m.a), model.H(m.b)}
+	case "aofshrink":
+		return []string{"req"}
 	}
 	return []string{"w", "flushdb"}
 }
@@ -794,6 +851,25 @@ type schedule struct {
 	Init   []mcmd
 	Before map[int][]mcmd
 	name   string
+	// CrashFirst: an earlier rewrite of the Init dataset dies at this crash point; the server is
+	// restarted on what it left behind, Mutate is applied, and only then the schedule proper runs
+	CrashFirst string
+	Mutate     []mcmd
+}
+
+var crashPoints []string
+
+// dead releases what is left of an instance whose process has died.
+func (in *inst) dead() {
+	if in.c != nil {
+		in.c.Close()
+		in.c = nil
+	}
+	if in.g != nil {
+		in.g.c.Close()
+		in.g = nil
+	}
+	os.Remove(in.sock)
 }
 
 func kvDump(c *srv.Conn) string {
@@ -869,6 +945,10 @@ func playSchedule(r *hx.Result, cfg hx.Config, drv *model.Driver, sc schedule, i
 			impl = "err:" + v.Str
 		case v.Kind == ':' && v.Int == 0:
 			impl = "notupdated"
+		case m.op == "aofshrink":
+			// answered OK at once; while a rewrite is running the request must be a no-op, which
+			// shows in everything compared later (cursor, file records, datasets)
+			impl = "ignored"
 		}
 		trace = append(trace, at+" "+m.String()+" -> "+impl)
 		if impl != mo {
@@ -881,6 +961,42 @@ func playSchedule(r *hx.Result, cfg hx.Config, drv *model.Driver, sc schedule, i
 	for _, m := range sc.Init {
 		if !apply(m, "init") {
 			return
+		}
+	}
+	leftoverWant := ""
+	if sc.CrashFirst != "" {
+		cp := sc.CrashFirst
+		caseDesc["crash_first"] = cp
+		pre := kvDump(in.c)
+		_, e := in.shrinkWith("final", func(ev event) bool {
+			if ev.kind == "final" {
+				in.g.ask("crash " + cp)
+			}
+			return true
+		})
+		if !strings.HasPrefix(e, "gate:") || !in.s.WaitExit(10*time.Second) {
+			r.Fail(hx.Failure{Kind: "correspondence", Signature: "shrink-crash-point-not-reached", What: "the server did not die at crash point " + cp + " (" + e + ")", Case: caseDesc, Impl: in.s.LogTail(400)})
+			return
+		}
+		in.dead()
+		trace = append(trace, "first rewrite died at "+cp+": "+dirState(dir))
+		want := strings.Split(drv.Ask("leftover", cp), " | ")
+		in = startInst(cfg.Work, dir)
+		if got := dirState(dir); len(want) == 2 && got != want[0] {
+			r.Fail(hx.Failure{Kind: "correspondence", Signature: "shrink-model-crash-dir", What: "files present after start-up on the leftovers of a crash at " + cp + " differ from the model's", Case: caseDesc, Impl: got, Model: want[0]})
+		}
+		if len(want) == 2 {
+			leftoverWant = want[1]
+		}
+		if rec := kvDump(in.c); rec != pre {
+			a, b := diffLines(strings.ReplaceAll(pre, ",", "\n"), strings.ReplaceAll(rec, ",", "\n"))
+			r.Fail(hx.Failure{Kind: "oracle", Signature: "shrink-crash-" + cp, What: "after a crash at " + cp + " a restart does not recover the acknowledged dataset: missing " + unhexLines(clip(a, 4)) + " extra " + unhexLines(clip(b, 4)), Case: caseDesc})
+			return
+		}
+		for _, m := range sc.Mutate {
+			if !apply(m, "after recovery") {
+				return
+			}
 		}
 	}
 	hasRename := false
@@ -946,6 +1062,9 @@ func playSchedule(r *hx.Result, cfg hx.Config, drv *model.Driver, sc schedule, i
 		return
 	}
 	_ = evs
+	if got := dirState(dir); leftoverWant != "" && got != leftoverWant {
+		r.Fail(hx.Failure{Kind: "correspondence", Signature: "shrink-model-crash-dir", What: "files present after a complete rewrite on the leftovers of a crash at " + sc.CrashFirst + " differ from the model's", Case: caseDesc, Impl: got, Model: leftoverWant})
+	}
 	// file records
 	recs, rerr := readAOF(filepath.Join(dir, "appendonly.aof"))
 	var implRecs []string
@@ -985,6 +1104,9 @@ func playSchedule(r *hx.Result, cfg hx.Config, drv *model.Driver, sc schedule, i
 	}
 	if live != restarted {
 		sig := "shrink-concurrent-restart-mismatch"
+		if sc.CrashFirst != "" {
+			sig = "shrink-after-crash-recovery"
+		}
 		if hasRename && live == mlive && restarted == mrep {
 			// exactly the loss the faithful model predicts for a RENAME concurrent with the rewrite
 			sig = "shrink-rename-stale"
@@ -1048,7 +1170,37 @@ func witnessSchedules() []schedule {
 		c.Init = append(c.Init, mcmd{op: "set", a: "big", b: fmt.Sprintf("i%02d", i), v: "v"})
 	}
 	c.Before = map[int][]mcmd{2: {{op: "rename", a: "big", b: "zbig"}}}
-	return []schedule{a, b, c}
+	// a second and a third AOFSHRINK request while the rewrite is parked: no-ops
+	var d schedule
+	d.name = "witness-second-request"
+	for _, k := range []string{"a", "b", "c"} {
+		for i := 0; i < 3; i++ {
+			d.Init = append(d.Init, mcmd{op: "set", a: k, b: fmt.Sprintf("i%d", i), v: "v"})
+		}
+	}
+	d.Before = map[int][]mcmd{
+		-1:      {{op: "set", a: "a", b: "i9", v: "w0"}},
+		2:       {{op: "set", a: "a", b: "i1", v: "w1"}, {op: "aofshrink"}, {op: "del", a: "a", b: "i0"}},
+		3:       {{op: "set", a: "b", b: "i5", v: "w2"}},
+		1000000: {{op: "aofshrink"}, {op: "set", a: "c", b: "i7", v: "w3"}, {op: "del", a: "c", b: "i0"}},
+	}
+	out := []schedule{a, b, c, d}
+	// an interrupted rewrite leaves files behind; the dataset shrinks; the next rewrite completes
+	for _, cp := range []string{"after-sync", "after-rename-bak", "before-append"} {
+		var e schedule
+		e.name = "witness-crash-then-shrink-" + cp
+		for i := 0; i < 60; i++ {
+			e.Init = append(e.Init, mcmd{op: "set", a: "big", b: fmt.Sprintf("i%02d", i), v: fmt.Sprintf("value-%d", i)})
+		}
+		for _, k := range []string{"b", "c", "d"} {
+			e.Init = append(e.Init, mcmd{op: "set", a: k, b: "1", v: "x"})
+		}
+		e.CrashFirst = cp
+		e.Mutate = []mcmd{{op: "drop", a: "big"}, {op: "set", a: "b", b: "9", v: "n"}}
+		e.Before = map[int][]mcmd{1: {{op: "set", a: "c", b: "7", v: "q"}}}
+		out = append(out, e)
+	}
+	return out
 }
 
 func genSchedule(rng *rand.Rand, withRename bool) schedule {
@@ -1101,6 +1253,8 @@ func genSchedule(rng *rand.Rand, withRename bool) schedule {
 				m = mcmd{op: "drop", a: k}
 			case x == 10 && rng.Intn(4) == 0:
 				m = mcmd{op: "flushdb"}
+			case x == 10:
+				m = mcmd{op: "aofshrink"}
 			default:
 				if withRename {
 					m = mcmd{op: "rename", a: k, b: keyOf(rng.Intn(ncols + 3))}
@@ -1110,6 +1264,22 @@ func genSchedule(rng *rand.Rand, withRename bool) schedule {
 			}
 			sc.Before[slot] = append(sc.Before[slot], m)
 		}
+	}
+	// every schedule asks for another rewrite at least once while the first is parked
+	rs := slots[rng.Intn(len(slots))]
+	if rng.Intn(2) == 0 {
+		rs = rng.Intn(8)
+	}
+	sc.Before[rs] = append(sc.Before[rs], mcmd{op: "aofshrink"})
+	if len(crashPoints) > 0 && rng.Intn(4) == 0 {
+		sc.CrashFirst = crashPoints[rng.Intn(len(crashPoints))]
+		sc.name += "+crash-first"
+		for j := 0; j < ncols; j++ {
+			if j == big || rng.Intn(2) == 0 {
+				sc.Mutate = append(sc.Mutate, mcmd{op: "drop", a: keyOf(j)})
+			}
+		}
+		sc.Mutate = append(sc.Mutate, mcmd{op: "set", a: keyOf(rng.Intn(ncols)), b: "i77", v: "after"})
 	}
 	return sc
 }
@@ -1242,25 +1412,58 @@ func crashScenario(r *hx.Result, cfg hx.Config, rng *rand.Rand, drv *model.Drive
 		r.Fail(hx.Failure{Kind: "oracle", Signature: "shrink-crash-" + cp, What: fmt.Sprintf("after a crash at %s (directory: %s) a restart does not recover the acknowledged state: %d lines missing, %d extra", cp, state, len(a), len(b)), Case: cs, Impl: map[string]interface{}{"only_acknowledged": clip(a, 6), "only_recovered": clip(b, 6)}})
 		return
 	}
-	// the leftovers (-bak / -shrink) must not disturb the next rewrite
+	// The leftovers (-bak / -shrink) must not influence later rewrites: the dataset changes (a large
+	// part is deleted, a little is added), a complete AOFSHRINK runs, and the server is restarted.
+	keys := knownKeys(in.c)
+	var mut []string
+	for i, k := range keys {
+		var w []string
+		switch {
+		case k == "k00" || i%2 == 0:
+			w = []string{"DROP", k}
+		case i%5 == 1:
+			w = []string{"PDEL", k, "id00*"}
+		}
+		if w != nil {
+			in.c.MustDo(w...)
+			mut = append(mut, strings.Join(qcmd(w), " "))
+		}
+	}
+	for i := 0; i < 3; i++ {
+		w := genSet(rng, pickKey(rng, cursorInfo{}, keys), fmt.Sprintf("late%d", i), false)
+		in.c.MustDo(w...)
+		mut = append(mut, strings.Join(qcmd(w), " "))
+	}
+	in.c.MustDo("DELHOOK", "hook00")
+	cs["after_recovery"] = clip(mut, 12)
+	acked2 := dumpFull(in.c)
 	if _, e := in.shrinkWith("", nil); e != "" {
 		r.Fail(hx.Failure{Kind: "oracle", Signature: "shrink-did-not-finish", What: "AOFSHRINK after crash recovery did not finish: " + e, Case: cs, Impl: in.s.LogTail(400)})
 		return
+	}
+	state2 := dirState(dir)
+	if cp != "kill-mid-scan" {
+		if want := strings.Split(drv.Ask("leftover", cp), " | "); len(want) == 2 && want[1] != state2 {
+			r.Fail(hx.Failure{Kind: "correspondence", Signature: "shrink-model-crash-dir", What: "files present after a complete rewrite on the leftovers of a crash at " + cp + " differ from the model's", Case: cs, Impl: state2, Model: want[1]})
+		}
+	}
+	if bad := checkShrunkFile(filepath.Join(dir, "appendonly.aof"), acked2); bad != "" {
+		r.Fail(hx.Failure{Kind: "oracle", Signature: "shrink-leftovers-in-new-file", What: "AOFSHRINK on a directory with leftovers of a rewrite that died at " + cp + " (" + state + "), after the dataset got smaller: " + bad, Case: cs})
 	}
 	in.stop()
 	in3 := startInst(cfg.Work, dir)
 	in = in3
 	again := dumpFull(in.c)
-	if again != acked {
-		a, b := diffLines(acked, again)
-		r.Fail(hx.Failure{Kind: "oracle", Signature: "shrink-after-crash-recovery", What: "AOFSHRINK on a directory with leftovers of a crashed rewrite (" + state + ") loses data", Case: cs, Impl: map[string]interface{}{"only_acknowledged": clip(a, 6), "only_after": clip(b, 6)}})
+	if again != acked2 {
+		a, b := diffLines(acked2, again)
+		r.Fail(hx.Failure{Kind: "oracle", Signature: "shrink-after-crash-recovery", What: fmt.Sprintf("crash at %s (leftovers: %s), restart, dataset made smaller, complete AOFSHRINK, restart: %d lines of the acknowledged state are missing, %d lines are extra", cp, state, len(a), len(b)), Case: cs, Impl: map[string]interface{}{"only_acknowledged": clip(a, 6), "only_after": clip(b, 6)}})
 	}
 }
 
 // ---------------------------------------------------------------- main
 
 func runC09(r *hx.Result, cfg hx.Config) {
-	r.Rule = "real servers (build tag verif) driven through the rewrite gate. quiescent: random datasets with more than maxkeys collections and more than maxids objects in a collection, every object kind, odd field values, deadlines, hooks and channels with META/EX: dump before = after = after restart, and the shrunk file holds exactly one SET per object; non-trivial = more than 8 collections and more than 40 objects. concurrent: 1-3 random writes (SET/FSET/DEL/PDEL/DROP/FLUSHDB/EXPIRE/PERSIST/JSET/JDEL/hook commands, keys and ids straddling the reported cursor) at the gates: live dump = dump after restart; non-trivial = at least one effective write and more than 12 gates. model schedules: schedules over SET/DEL/DROP/FLUSHDB (+RENAME in a separate stream and the Coq witnesses) played on server and extracted model: cursor at every gate, file records, live dataset and dataset after restart compared; non-trivial = at least one concurrent write and more than 2 batches. crash: every crash point of the final swap and a kill in the middle of the scan: restart recovers the acknowledged dump, directory contents as in the model, and a later AOFSHRINK on the leftovers is harmless."
+	r.Rule = "real servers (build tag verif) driven through the rewrite gate. quiescent: random datasets with more than maxkeys collections and more than maxids objects in a collection, every object kind, odd field values, deadlines, hooks and channels with META/EX: dump before = after = after restart, and the shrunk file holds exactly one SET per object; non-trivial = more than 8 collections and more than 40 objects. concurrent: 1-3 random writes (SET/FSET/DEL/PDEL/DROP/FLUSHDB/EXPIRE/PERSIST/JSET/JDEL/hook commands, keys and ids straddling the reported cursor) at the gates: live dump = dump after restart; non-trivial = at least one effective write and more than 12 gates. model schedules: schedules over SET/DEL/DROP/FLUSHDB (+RENAME in a separate stream and the Coq witnesses) played on server and extracted model: cursor at every gate, file records, live dataset and dataset after restart compared; non-trivial = at least one concurrent write and more than 2 batches. further AOFSHRINK requests are issued as writer commands while the rewrite is parked (model: Req, a no-op while shrinking) in every model schedule and every concurrent scenario. crash: every crash point of the final swap and a kill in the middle of the scan: restart recovers the acknowledged dump, directory contents as in the model; then the dataset is made smaller (about half of the collections dropped, a few objects added), a complete AOFSHRINK runs on the leftovers (-shrink / -bak), the new file must hold exactly one SET per remaining object and a second restart must give the same dump; the same as model schedules (crash first, mutate, rewrite, file records = model)."
 	r.Assumptions = []string{
 		"a crash is the death of the process (os.Exit at a named point / SIGKILL); the page cache survives, fsync is not modelled",
 		"B-tree Ascend / ScanGreaterOrEqual are modelled as iteration over a sorted list",
@@ -1286,7 +1489,22 @@ func runC09(r *hx.Result, cfg hx.Config) {
 		nq, nc, nm, nmr, ncrashRounds = 10, 60, 60, 0, 2
 	}
 	idx := 0
+	// enough evidence: after several failures outside the steered-around known triggers the
+	// remaining scenarios are skipped (a broken rewrite can make every scenario wait for time-outs)
+	tooMany := func() bool {
+		n := 0
+		for k, v := range r.Distribution {
+			if strings.HasPrefix(k, "fail:") && !strings.Contains(k, "shrink-rename-") && !strings.Contains(k, "-replayed-twice") {
+				n += v
+			}
+		}
+		return n >= 8
+	}
 	guard := func(name string, f func()) {
+		if tooMany() {
+			r.Dist("skipped-after-many-failures")
+			return
+		}
 		defer func() {
 			if e := recover(); e != nil {
 				r.Fail(hx.Failure{Kind: "oracle", Signature: "shrink-server-died", What: fmt.Sprintf("%s: %v", name, e), Case: name})
@@ -1304,6 +1522,7 @@ func runC09(r *hx.Result, cfg hx.Config) {
 	guard("jdel-index", func() { jsonWitness(r, cfg, "jdel-index") })
 	// 2. crash points
 	cps := strings.Split(drv.Ask("cpoints"), ",")
+	crashPoints = cps
 	for round := 0; round < ncrashRounds; round++ {
 		for _, cp := range append(cps, "kill-mid-scan") {
 			cp := cp
